@@ -57,10 +57,12 @@ func (s *Scheduler) runMain(f func()) {
 				return // outcome recorded by the aborting thread
 			}
 			if !s.haveOutcome {
-				switch r.(type) {
+				switch e := r.(type) {
 				case nil, *GoPanic, *pathEnd:
+				case *EngineError:
+					r = &EngineError{msg: e.msg + in.stackString()}
 				default:
-					r = &EngineError{msg: fmt.Sprintf("%v\n%s", r, debug.Stack())}
+					r = &EngineError{msg: fmt.Sprintf("%v%s\n%s", r, in.stackString(), debug.Stack())}
 				}
 				s.outcome = r
 				s.haveOutcome = true
